@@ -164,6 +164,11 @@ impl TransportVisitor for V {
                 for oi in 0..ops.len() {
                     menu.push((9, p, lp, oi));
                 }
+                if p == 0 && lp == 0 {
+                    // A completion whose used length is larger than the receive buffer: no
+                    // packet, an error, and the buffer goes back like any other.
+                    menu.push((9, p, lp, 11));
+                }
             }
         }
         if !table {
@@ -339,9 +344,11 @@ impl TransportVisitor for V {
                     let foreign = kind == 10;
                     // arg 9 / 10: a SHUTDOWN whose hints name only one direction (receive resp.
                     // send): still the peer's shutdown of this connection.
+                    let overstated = arg == 11;
                     let (op, shut_flags) = match arg {
                         9 => (OP_SHUTDOWN, 1u32),
                         10 => (OP_SHUTDOWN, 2),
+                        11 => (0, 3),
                         _ => (ops[arg], 3),
                     };
                     let dst_cid = if foreign { GUEST_CID + 1 } else { GUEST_CID };
@@ -362,7 +369,8 @@ impl TransportVisitor for V {
                         payload = vec![cbyte(peer, lport, p_pos), cbyte(peer, lport, p_pos + 1)];
                     }
                     let h = Hdr { src_cid: peer.cid, dst_cid, src_port: peer.port, dst_port: lport, len: payload.len() as u32, typ: 1, op, flags: if op == OP_SHUTDOWN { shut_flags } else { 0 }, buf_alloc: PEER_BUF, fwd_cnt: p_rx };
-                    if dev.deliver(0, &h, &payload).is_none() {
+                    let delivered = if overstated { dev.deliver_raw(0, &h.encode(), VSOCK_RX as u32 + 1) } else { dev.deliver(0, &h, &payload) };
+                    if delivered.is_none() {
                         viol("no-receive-buffer", "no receive buffer posted for an incoming packet".into());
                         break;
                     }
@@ -376,7 +384,11 @@ impl TransportVisitor for V {
                     tag("peer-packet");
                     let ci = if foreign { None } else { m.find(peer, lport) };
                     // Invalid / unknown operations are rejected before any connection lookup.
-                    if op == 0 || op == 9 {
+                    if overstated {
+                        if r.is_ok() {
+                            viol("overstated-length-accepted", format!("a completion with a used length of {} for a {}-byte receive buffer -> {:?}, expected an error", VSOCK_RX + 1, VSOCK_RX, r));
+                        }
+                    } else if op == 0 || op == 9 {
                         let want = if op == 0 { SocketError::InvalidOperation } else { SocketError::UnknownOperation(9) };
                         if r != Err(Error::SocketDeviceError(want)) {
                             viol("invalid-op", format!("packet with op {} -> {:?}", op, r));
